@@ -128,7 +128,7 @@ Definition end_of (failed : bool) : end_kind := if failed then EFail else EPass.
 Fixpoint run_lines (cfg : config) (ls : list bytes) (n : nat) (failed : bool) (st : state)
   : end_kind * state * list nat :=
   match ls with
-  | [] => (end_of failed, end_bg st, [])
+  | [] => (end_of failed, end_bg (set_lineno st n), [])
   | l :: rest =>
       if is_comment l then run_lines cfg rest (S n) failed st
       else
@@ -178,8 +178,8 @@ Fixpoint unpack (unique : bool) (fs : list (bytes * bytes)) (st : state) : state
       let p := mkabs st (expand [] name) in
       let st0 := set_files st (assoc_set (s_files st) p name) in
       match mkdir_all (s_fs st0) (dir p) 511 with
-      | None => (st0, false)
-      | Some t1 =>
+      | (t1, false) => (set_fs st0 t1, false)
+      | (t1, true) =>
           match (if unique then write_file_excl t1 p data 438 else write_file t1 p data 438) with
           | None => (set_fs st0 t1, false)
           | Some t2 => unpack unique r (set_fs st0 t2)
@@ -189,8 +189,8 @@ Fixpoint unpack (unique : bool) (fs : list (bytes * bytes)) (st : state) : state
 
 Definition setup (cfg : config) (work : bytes) (env : list (bytes * bytes)) (a : archive) : state * bool :=
   match mkdir_all [] (work ++ (* "/.tmp" *) [x2f; x2e; x74; x6d; x70]) 511 with
-  | None => (empty_state env work [], false)
-  | Some t => unpack (c_unique cfg) (files a) (empty_state env work t)
+  | (t, false) => (empty_state env work t, false)
+  | (t, true) => unpack (c_unique cfg) (files a) (empty_state env work t)
   end.
 
 (* a failure of setup is reported as FAIL: file:0 whatever ContinueOnError says *)
